@@ -96,7 +96,8 @@ Print Assumptions c17_drop_absent_level_noop.
 
 (* The completed cells are root-to-leaf paths of the STORED tree, whatever the reduction
    (none, any droppable level, flatten, both, an absent level): for every decision procedure
-   that answers with children of the parent it was asked about, every taxonomy meeting
+   that answers with children of the parent it was asked about (it is only ever asked about
+   parents with >= 2 children), every taxonomy meeting
    tree_ok (C01) that the validator accepts, every configuration that reduce accepts: a
    successful run satisfies the property's executable statement spec_c17 — one cell per
    query cell; every stored level present and nothing else; the assignments form a path of
@@ -106,7 +107,8 @@ Print Assumptions c17_drop_absent_level_noop.
 Theorem c17_backfilled_path :
   forall (cell rng : Type) (cache_ok : tree -> Markers.table -> bool)
          (mk_decide : tree -> Markers.table -> rng -> option (nat * node) -> list node -> list cell -> list rec * rng),
-    (forall t1 tb1 g p kids cs, Forall (fun r => In (asg r) kids) (fst (mk_decide t1 tb1 g p kids cs))) ->
+    (forall t1 tb1 g p kids cs, (2 <= length kids)%nat ->
+        Forall (fun r => In (asg r) kids) (fst (mk_decide t1 tb1 g p kids cs))) ->
     forall (t : tree) (c : cfg) (tb : Markers.table) (cells : list cell) (g : rng)
            (t' : tree) (m : list nat) (rows : list cellmap) (g' : rng),
       tree_ok t -> validate t = true ->
@@ -115,6 +117,39 @@ Theorem c17_backfilled_path :
       spec_c17 t m (length cells) rows = true.
 Proof. exact backfilled_path. Qed.
 Print Assumptions c17_backfilled_path.
+
+(* backfill_assignments never raises: under the same hypotheses no run ends in the KeyError
+   of _child_to_parent — so the `= TErr E_KEY` alternative of c17_drop_equals_reduced and
+   c17_flatten_equals_one_level does not occur for validated trees *)
+Theorem c17_no_key_error :
+  forall (cell rng : Type) (cache_ok : tree -> Markers.table -> bool)
+         (mk_decide : tree -> Markers.table -> rng -> option (nat * node) -> list node -> list cell -> list rec * rng),
+    (forall t1 tb1 g p kids cs, (2 <= length kids)%nat ->
+        Forall (fun r => In (asg r) kids) (fst (mk_decide t1 tb1 g p kids cs))) ->
+    forall (t : tree) (c : cfg) (tb : Markers.table) (cells : list cell) (g : rng) (t' : tree) (m : list nat),
+      tree_ok t -> validate t = true ->
+      reduce t c = TOk (t', m) ->
+      run_mapping_model cell rng cache_ok mk_decide t c tb cells g <> TErr Tree.E_KEY.
+Proof. exact no_key_error. Qed.
+Print Assumptions c17_no_key_error.
+
+(* ... and the run succeeds as soon as the reduction and the marker cache are accepted, when
+   the decision procedure also answers for every cell it is handed (C01's totality on the
+   reduced tree + no KeyError) *)
+Theorem c17_total :
+  forall (cell rng : Type) (cache_ok : tree -> Markers.table -> bool)
+         (mk_decide : tree -> Markers.table -> rng -> option (nat * node) -> list node -> list cell -> list rec * rng),
+    (forall t1 tb1 g p kids cs, (2 <= length kids)%nat ->
+        Forall (fun r => In (asg r) kids) (fst (mk_decide t1 tb1 g p kids cs))) ->
+    (forall t1 tb1 g p kids cs, (2 <= length kids)%nat ->
+        length (fst (mk_decide t1 tb1 g p kids cs)) = length cs) ->
+    forall (t : tree) (c : cfg) (tb : Markers.table) (cells : list cell) (g : rng) (t' : tree) (m : list nat),
+      tree_ok t -> validate t = true ->
+      reduce t c = TOk (t', m) ->
+      cache_ok t' (if cfg_flatten c then Markers.flatten_table tb else tb) = true ->
+      exists rows g', run_mapping_model cell rng cache_ok mk_decide t c tb cells g = TOk (rows, g').
+Proof. exact run_total. Qed.
+Print Assumptions c17_total.
 
 (* ---------------- non-vacuity: a 4-level taxonomy with a single top node, a single-child
    chain (10 -> 100) and a single-child parent (110 -> 1100) ---------------- *)
@@ -125,28 +160,27 @@ Definition ex_tree : tree :=
     [(1000, [0]); (1001, [1]); (1100, [2]); (1110, [3]); (1111, [4])] ].
 Definition ex_decide (_ : tree) (_ : Markers.table) (g : nat) (p : option (nat * node)) (kids : list node) (cs : list Z)
   : list rec * nat :=
-  match kids with
-  | [] => ([], S g)                    (* never asked: the election skips childless parents *)
-  | _ =>
-    (map (fun c => {| asg := if Z.even c then hd 0 kids else last kids 0; prob := (3, 4); corr := Some (1, 2);
-                      runners := [(if Z.even c then last kids 0 else hd 0 kids, (1, 4), (1, 8))]; agg := one |}) cs, S g)
-  end.
+  (map (fun c => {| asg := if Z.even c then hd 0 kids else last kids 0; prob := (3, 4); corr := Some (1, 2);
+                    runners := [(if Z.even c then last kids 0 else hd 0 kids, (1, 4), (1, 8))]; agg := one |}) cs, S g).
 Definition ex_run := run_mapping_model Z nat (fun _ _ => true) ex_decide.
 Definition ex_tb : Markers.table := [(None, [5; 3]); (Some (1%nat, 11), [3; 7])].
 
 (* the hypotheses of c17_backfilled_path hold of it *)
 Example c17_example_tree_ok : tree_ok ex_tree /\ validate ex_tree = true.
 Proof. split; [apply tree_ok_b; vm_compute; reflexivity | vm_compute; reflexivity]. Qed.
-Example c17_example_decide_kids :
-  forall t1 tb1 g p kids cs, Forall (fun r => In (asg r) kids) (fst (ex_decide t1 tb1 g p kids cs)).
+Example c17_example_decide_ok :
+  (forall t1 tb1 g p kids cs, (2 <= length kids)%nat ->
+      Forall (fun r => In (asg r) kids) (fst (ex_decide t1 tb1 g p kids cs))) /\
+  (forall t1 tb1 g p kids cs, (2 <= length kids)%nat -> length (fst (ex_decide t1 tb1 g p kids cs)) = length cs).
 Proof.
-  intros t1 tb1 g p kids cs. destruct kids as [|k0 kids']; [constructor|].
-  assert (Hk : k0 :: kids' <> []) by discriminate. revert Hk. generalize (k0 :: kids') as kids. intros kids Hk.
-  destruct kids as [|k1 kids'']; [congruence|]. cbn [ex_decide fst].
-  apply Forall_forall. intros r Hr. apply in_map_iff in Hr.
-  destruct Hr as (c & <- & _). cbn [asg]. destruct (Z.even c).
-  - left; reflexivity.
-  - destruct (exists_last Hk) as (l & a & E). rewrite E, last_last. apply in_or_app. right. left. reflexivity.
+  split.
+  - intros t1 tb1 g p kids cs Hk. cbn. apply Forall_forall. intros r Hr. apply in_map_iff in Hr.
+    destruct Hr as (c & <- & _). cbn [asg].
+    assert (Hne : kids <> []) by (destruct kids; [cbn in Hk; inversion Hk | discriminate]).
+    destruct (Z.even c).
+    + destruct kids; [congruence | left; reflexivity].
+    + destruct (exists_last Hne) as (l & a & ->). rewrite last_last. apply in_or_app. right. left. reflexivity.
+  - intros t1 tb1 g p kids cs _. cbn. apply map_length.
 Qed.
 
 Example c17_example_hypotheses :
